@@ -73,10 +73,11 @@ func nCtxAtoms() int {
 var repIDs = map[string]bool{"false": true, "true": true, "int0": true, "f0": true, "s": true, "s0": true, "nil": true, "l": true, "m": true,
 	"ints": true, "i64": true, "u8": true, "L0": true, "Ll0": true}
 
-var branchText = []string{"A", "B", "C"}
+var branchText = []string{"A", "B", "C", "D", "G", "H"}
 
-// chainSrc prints  [{% if c0 %}A{% elseif c1 %}B{% else %}E{% endif %}]
-func chainSrc(as []atom, hasElse bool) (string, map[string]interface{}) {
+// chainSrc prints  [{% if c0 %}A{% elseif c1 %}B{% else %}E{% endif %}] ; the body of alternative
+// number emptyAt (len(as) = the else branch) is left empty, -1 = none.
+func chainSrc(as []atom, hasElse bool, emptyAt int) (string, map[string]interface{}) {
 	ctx := map[string]interface{}{}
 	s := "["
 	for i, a := range as {
@@ -90,22 +91,33 @@ func chainSrc(as []atom, hasElse bool) (string, map[string]interface{}) {
 		} else {
 			s += "{% elseif " + c + " %}"
 		}
-		s += branchText[i]
+		if i != emptyAt {
+			s += branchText[i]
+		}
 	}
 	if hasElse {
-		s += "{% else %}E"
+		s += "{% else %}"
+		if emptyAt != len(as) {
+			s += "E"
+		}
 	}
 	s += "{% endif %}]"
 	return s, ctx
 }
 
-func chainWant(as []atom, hasElse bool) (string, string) {
+func chainWant(as []atom, hasElse bool, emptyAt int) (string, string) {
 	for i, a := range as {
 		if a.truthy {
+			if i == emptyAt {
+				return "[]", "branch" + itoa(i) + "(empty)"
+			}
 			return "[" + branchText[i] + "]", "branch" + itoa(i)
 		}
 	}
 	if hasElse {
+		if emptyAt == len(as) {
+			return "[]", "else(empty)"
+		}
 		return "[E]", "else"
 	}
 	return "[]", "nothing"
@@ -125,20 +137,33 @@ func runA(t *vlib.T) {
 	}
 	emit := func(as []atom) {
 		for _, hasElse := range []bool{false, true} {
-			key := "A/"
-			for _, a := range as {
-				key += a.id + ","
+			// chains of three conditions are generated with all bodies non-empty only
+			lo, hi := -1, len(as)
+			if !hasElse {
+				hi = len(as) - 1
 			}
-			if hasElse {
-				key += "/else"
+			if len(as) > 2 {
+				hi = -1
 			}
-			as, hasElse := append([]atom{}, as...), hasElse
-			t.Case(key, func() *vlib.Outcome {
-				src, ctx := chainSrc(as, hasElse)
-				got, _ := render(src, ctx)
-				want, cls := chainWant(as, hasElse)
-				return verdict("A", src, ctx, got, want, len(as) > 1 || hasElse, fmt.Sprintf("A:%d:%s", len(as), cls))
-			})
+			for emptyAt := lo; emptyAt <= hi; emptyAt++ {
+				key := "A/"
+				for _, a := range as {
+					key += a.id + ","
+				}
+				if hasElse {
+					key += "/else"
+				}
+				if emptyAt >= 0 {
+					key += "/empty" + itoa(emptyAt)
+				}
+				as, hasElse, emptyAt := append([]atom{}, as...), hasElse, emptyAt
+				t.Case(key, func() *vlib.Outcome {
+					src, ctx := chainSrc(as, hasElse, emptyAt)
+					got, _ := render(src, ctx)
+					want, cls := chainWant(as, hasElse, emptyAt)
+					return verdict("A", src, ctx, got, want, len(as) > 1 || hasElse, fmt.Sprintf("A:%d:%s", len(as), cls))
+				})
+			}
 		}
 	}
 	for _, a := range all {
@@ -147,6 +172,24 @@ func runA(t *vlib.T) {
 	for _, a := range all {
 		for _, b := range all {
 			emit([]atom{a, b})
+		}
+	}
+	// long chains: every truth vector of 4..6 conditions over one falsy and one truthy atom
+	byID := map[string]atom{}
+	for _, a := range all {
+		byID[a.id] = a
+	}
+	for n := 4; n <= 6; n++ {
+		for bits := 0; bits < 1<<n; bits++ {
+			as := make([]atom, n)
+			for i := range as {
+				if bits>>i&1 == 1 {
+					as[i] = byID["s0"]
+				} else {
+					as[i] = byID["f0"]
+				}
+			}
+			emit(as)
 		}
 	}
 	for _, a := range third {
